@@ -244,13 +244,26 @@ func replaySpecial(path string) (int, bool) {
 		fmt.Println("replay: violation not reproduced")
 		return 0, true
 	case len(f.Replay.StoreHistory) > 0:
-		u := mkUniverse(true)
-		if bu := mkBoundaryUniverse(); len(f.Replay.StoreHistory) > 0 {
-			for _, op := range bu.ops {
-				if op.label == f.Replay.StoreHistory[0] {
-					u = bu
+		// the universe that has every operation of the history
+		var u *sUniverse
+		for _, cand := range []*sUniverse{mkUniverse(true), mkBoundaryUniverse(), mkTypedUniverse()} {
+			all := true
+			for _, l := range f.Replay.StoreHistory {
+				found := false
+				for _, op := range cand.ops {
+					if op.label == l {
+						found = true
+					}
 				}
+				all = all && found
 			}
+			if all && u == nil {
+				u = cand
+			}
+		}
+		if u == nil {
+			fmt.Printf("CHECK-ERROR: no store universe has the operations %q\n", f.Replay.StoreHistory)
+			return 2, true
 		}
 		var hist []int
 		for _, l := range f.Replay.StoreHistory {
